@@ -269,8 +269,19 @@ def run_standins(res: Result, contracts, mods, tier):
             if getattr(f, "prop", res.pid) != res.pid:
                 continue
             t0 = time.time()
+            import signal
+
+            budget = int(os.environ.get("PYVC_STANDIN_BUDGET_S", "900" if tier == "thorough" else "180"))
             try:
-                r = f(tier, res.seed)
+                signal.signal(signal.SIGALRM, _alarm)
+                signal.alarm(budget)
+                try:
+                    r = f(tier, res.seed)
+                finally:
+                    signal.alarm(0)
+            except _Budget:
+                res.errors.append(f"stand-in {modname}.{f.__name__} exceeded its wall-clock budget of {budget}s")
+                continue
             except Exception:
                 res.errors.append(f"stand-in {modname}.{f.__name__} crashed: {traceback.format_exc()[-600:]}")
                 continue
